@@ -428,3 +428,57 @@ func runNoCookieSentinelOnlyFromRequest(c *Ctx, rule string) {
 		c.R.OK(rule, key, c.P.Pos(fn.Pos()), "http.ErrNoCookie reaches the caller only as req.Cookie's own error")
 	}
 }
+
+// runTimerResetNeedsValidation (C12.R17) — reports defect 17, recorded as a KNOWN FINDING (known_findings.json; DESIGN §7).
+// For providers without refresh support refreshSession "pretends it refreshed": it re-stamps the session and SAVES it,
+// and only afterwards refreshSessionIfNeeded asks the provider to re-validate. Between that save and the loader's Clear
+// after a failed validation the store holds a session that looks fresh: a second request with the same ticket is served
+// without any validation (shown against the real code with the Redis store; see findings/). The
+// rule: on the not-implemented path, the save of the re-stamped session comes after sessionValidator answered true.
+func runTimerResetNeedsValidation(c *Ctx, rule string) {
+	a := c.c12Anchors(rule)
+	saveM := c.Method(rule, "pkg/apis/sessions.SessionStore.Save")
+	if a == nil || saveM == nil {
+		return
+	}
+	n := 0
+	key := "restamp-saved-before-validation|" + fnKey(a.rs)
+	bad := false
+	c.Walk(rule, a.rs, func(p *walk.Path) {
+		for _, sv := range p.FindTop(walk.Invoke(c.P, saveM), p.End()) {
+			rc, ok := Has(p, sv.Idx, Need{M: walk.ThroughField(a.refresherF), Out: Called})
+			if !ok {
+				continue
+			}
+			ek, _, _ := callErrDV(p, rc)
+			if !hasErrorsIsAtom(p, sv.Idx, ek, "providers.ErrNotImplemented", true) {
+				continue // a real refresh: the provider just issued these tokens
+			}
+			n++
+			validated := false
+			for _, v := range p.Find(walk.ThroughField(a.validatorF), sv.Idx) {
+				if t, known := p.ResultTruth(v.DV(), 0, sv.Idx); known && t {
+					validated = true
+				}
+			}
+			for _, v := range p.Find(walk.Static(a.vs), sv.Idx) {
+				if isNil, known := p.ResultNil(v.DV(), -1, sv.Idx); known && isNil {
+					validated = true // validateSession(...) == nil: not expired and accepted by the provider
+				}
+			}
+			if validated {
+				continue
+			}
+			if !bad {
+				bad = true
+				c.bad(rule, key, sv.In, "for a provider without refresh support the stale session is re-stamped and saved BEFORE the provider has re-validated it: until the failed validation clears it, any request with the same ticket loads a session that looks fresh and is served unvalidated", p, sv.Idx)
+			}
+		}
+	})
+	switch {
+	case n == 0:
+		c.R.OK(rule, key, c.P.Pos(a.rs.Pos()), "refreshSession does not save on the not-implemented path (the timer is reset elsewhere, after validation)")
+	case !bad:
+		c.R.OK(rule, key, c.P.Pos(a.rs.Pos()), "the re-stamped session is saved only after sessionValidator answered true")
+	}
+}
